@@ -29,7 +29,7 @@ def gen(tier, rng, scale):
             if rng.chance(2, 5):
                 items.append(["m", rng.choice(ts), rng.choice([1, 1, 2, -1])])
             else:
-                items.append(["a", rng.choice(ts), rng.choice(["n", 0, 1, 2]), rng.choice([0, 0, 3]), rng.choice([1, 1, -1, 4])])
+                items.append(["a", rng.choice(ts), rng.choice(["n", 0, 1, 2]), rng.choice([0, 0, 3]), rng.choice([1, 1, -1, 4, 0])])
         cases.append({"kind": "samples", "items": items})
     for _ in range((350 if quick else 5000) * scale):
         n = rng.range(6, 80 if quick else 300)
@@ -50,9 +50,9 @@ def gen(tier, rng, scale):
                 # added later, also those after the stated end time, keep their own times
                 items.append(rng.choice([["e", max(0, t - rng.below(3000))], ["e", t + rng.below(100)], ["b", rng.below(t + 1)], ["nm", "t%d" % rng.below(9)]]))
             if rng.chance(1, 3):
-                items.append(["m", t, rng.choice([1, 1, 1, 3, -2])])
+                items.append(["m", t, rng.choice([1, 1, 1, 3, -2, 0])])
             else:
-                items.append(["a", t, rng.choice(["n", 0, 1, 2, 3, 4, 5]), rng.choice([0, 0, 0, 1, 250, 10**6, 10**6, 2**32 - 1, 2**32, 2**32 + 7, 5 * 10**9, 2**40 + 3, 2**52]), rng.choice([1, 1, 1, -1, 7, -3])])
+                items.append(["a", t, rng.choice(["n", 0, 1, 2, 3, 4, 5]), rng.choice([0, 0, 0, 1, 250, 10**6, 10**6, 2**32 - 1, 2**32, 2**32 + 7, 5 * 10**9, 2**40 + 3, 2**52]), rng.choice([1, 1, 1, -1, 7, -3, 0])])            # weight 0 (with CPU delta 0 too) is a sample like any other
         cases.append({"kind": "samples", "items": items})
     for _ in range((300 if quick else 4000) * scale):
         n = rng.range(1, 40 if quick else 200)
@@ -64,7 +64,7 @@ def gen(tier, rng, scale):
                 t = max(0, t - rng.below(50))
             elif r >= 50:
                 t += rng.below(100) * rng.choice([1, 1000])
-            items.append(["k", t, rng.choice([0, 1, -1, 5, 1000, -4096]), rng.choice([0, 1, 2, 9])])
+            items.append(["k", t, rng.choice([0, 0, 1, -1, 5, 1000, -4096]), rng.choice([0, 0, 1, 2, 9])])
         cases.append({"kind": "counter", "items": items})
     return cases
 
